@@ -33,6 +33,7 @@ type Engine struct {
 	src       map[string][]byte
 	typeCache map[string]types.Type
 	arrInvKeys map[string]bool
+	mapFrameKeys map[string]map[string]bool
 	mapInvKeys map[string]bool
 }
 
@@ -123,6 +124,19 @@ func loadEngine(repo string, speclibDir string) (*Engine, error) {
 		}
 		_, mv, _, _ := e.mapKeys(t)
 		e.mapInvKeys[mv] = true
+	}
+	e.mapFrameKeys = map[string]map[string]bool{}
+	for k, fs := range e.contracts.MapFrame {
+		parts := strings.SplitN(k, "|", 2)
+		t, err := e.resolveType(parts[0], parts[1])
+		if err != nil {
+			return nil, err
+		}
+		_, mv, _, _ := e.mapKeys(t)
+		e.mapFrameKeys[mv] = map[string]bool{}
+		for _, f := range fs {
+			e.mapFrameKeys[mv][f] = true
+		}
 	}
 	// functions implementing a functype inherit its clauses (checked against their own body)
 	for _, c := range e.contracts.Funcs {
